@@ -299,7 +299,7 @@ func VerifH_C02_CompressedInput() {
 
 // VerifH_C02_AcceptedRecordRoundTrip: C02 quantifies over "all messages the decoder ACCEPTS" — so the decoder's
 // accepting set is part of the property. A wire record of each interpreted type (A, AAAA, NS, MX, SOA, SRV) and of
-// TXT/OPT, root owner, with ANY declared RDLENGTH 0..255 and up to 8 (thorough 10) arbitrary RDATA octets, cut anywhere:
+// TXT/OPT, root owner, a TTL with an arbitrary most significant octet, with ANY declared RDLENGTH 0..255 and up to 8 (thorough 10) arbitrary RDATA octets, cut anywhere:
 // whenever the decoder accepts it, (1) what it decoded is what an independent decoder reads from the same octets
 // (owner, type, class, TTL, and the RDATA in the type's own format — in particular an interpreted type is never
 // accepted with RDATA that is not of that format, e.g. empty), and (2) re-encoding it yields octets the independent
@@ -312,7 +312,8 @@ func VerifH_C02_AcceptedRecordRoundTrip_S8() {
 	if verifrt.Thorough() {
 		nt = 10
 	}
-	prefix := []byte{0, byte(typ >> 8), byte(typ), 0, 1, 0, 0, 0, 5}
+	t0 := verifrt.Byte("ttl.top") // the TTL's most significant octet is arbitrary (values with the top bit set included)
+	prefix := []byte{0, byte(typ >> 8), byte(typ), 0, 1, t0, 0, 0, 5}
 	tail := verifrt.Bytes("tail", nt) // RDLENGTH (2) + RDATA, possibly truncated
 	msg := append(append([]byte(nil), prefix...), tail...)
 	if len(tail) >= 1 {
